@@ -18,34 +18,46 @@ var presOps = []string{"p.set1", "p.set2", "p.clear", "p.set1+o.set1"}
 
 func c12Scenarios(tier string) []*hist.Scenario {
 	var out []*hist.Scenario
-	k, y := 2, 3
-	if tier == "thorough" {
-		k, y = 3, 4
+	mk := func(noPres bool, th int64, al []string, n, late, k, y, d int) {
+		tag := "presence"
+		if noPres {
+			tag = "presenceless"
+		}
+		snap := ""
+		if th == 1 {
+			snap = "/snap1-1"
+		}
+		out = append(out, &hist.Scenario{
+			Name: fmt.Sprintf("c12/%s%s/%s/N%dL%dK%dY%dD%d", tag, snap, strings.Join(al, "+"), n, late, k, y, d),
+			N:    n, Late: late, Init: []string{"init.o"}, Alphabet: al, K: k, Y: y, D: d, Deact: true,
+			InitialPresence: true,
+			Cfg:             hist.Config{Threshold: th, Interval: th, NoPresence: noPres, LateOpposite: true},
+		})
 	}
-	for _, noPres := range []bool{false, true} {
-		for _, th := range []int64{hist.Big, 1} {
-			for _, al := range pairs(presOps) {
-				if tier == "quick" && len(al) == 2 && (th == 1 || noPres) {
-					continue
+	each := func(ops []string, n, late, k, y, d int) {
+		for _, noPres := range []bool{false, true} {
+			for _, th := range []int64{hist.Big, 1} {
+				for _, op := range ops {
+					mk(noPres, th, []string{op}, n, late, k, y, d)
 				}
-				tag := "presence"
-				if noPres {
-					tag = "presenceless"
-				}
-				snap := ""
-				if th == 1 {
-					snap = "/snap1-1"
-				}
-				iv := th
-				out = append(out, &hist.Scenario{
-					Name: fmt.Sprintf("c12/%s%s/%s/N2L1K%dY%dD2", tag, snap, strings.Join(al, "+"), k, y),
-					N:    2, Late: 1, Init: []string{"init.o"}, Alphabet: al, K: k, Y: y, D: 2, Deact: true,
-					InitialPresence: true,
-					Cfg:             hist.Config{Threshold: th, Interval: iv, NoPresence: noPres, LateOpposite: true},
-				})
 			}
 		}
 	}
+	// Smallest shapes first (histories in normal form before no-effect pruning,
+	// `vcheck countshape`; D counts attach, detach and deactivate events):
+	// N2L1K1Y2D1 2.2k, N2K1Y2D2 8.1k, N2L1K2Y2D1 8.8k, N2K2Y2D2 31k, N2L1K1Y2D2 44k.
+	each(presOps[:1], 2, 0, 1, 2, 2)
+	each([]string{"p.set1", "p.clear", "p.set1+o.set1"}, 2, 1, 1, 2, 1)
+	each(presOps[1:], 2, 0, 1, 2, 2)
+	each(presOps[:2], 2, 1, 2, 2, 1)
+	each(presOps[:1], 2, 0, 2, 2, 2)
+	if tier == "quick" {
+		return out
+	}
+	each(presOps[2:], 2, 1, 2, 2, 1)
+	each(presOps[1:3], 2, 0, 2, 2, 2)
+	each([]string{"p.set1", "p.set1+o.set1"}, 2, 1, 1, 2, 2)
+	each(presOps[:2], 2, 0, 2, 3, 2)
 	return out
 }
 
@@ -83,9 +95,15 @@ func c12Oracle(x *hist.Exec) {
 	}
 	if x.Cfg.NoPresence {
 		for _, r := range reps {
-			if m := r.Doc.AllPresences(); len(m) > 0 {
+			// What the server returned is checked at every response (c12OnRPC). A
+			// replica's view may still contain the replica's OWN presence when that
+			// client attached with presence enabled (it set it locally; nothing was
+			// stored or returned): only other participants' presence would be a leak.
+			m := r.Doc.AllPresences()
+			delete(m, r.Cli.ID().String())
+			if len(m) > 0 {
 				x.Viol = append(x.Viol, hist.Violation{Kind: "presence-leak", Sig: "presence-leak:replica",
-					Detail: fmt.Sprintf("client %d sees presences %v on a presenceless document", r.Role, m)})
+					Detail: fmt.Sprintf("client %d sees presences of others %v on a presenceless document", r.Role, m)})
 				return
 			}
 		}
@@ -204,6 +222,6 @@ func init() {
 			"oracle after the quiescent closure: AllPresences identical on all attached replicas, keys subset of attached actors, attached actors present unless they cleared themselves; " +
 			"presenceless: no presence in any response change/snapshot, stored change, stored snapshot or replica; non-trivial = concurrent edits",
 		Assume:      []string{"memdb backend", "watch-stream (online clients) presence is not explored; AllPresences is the observed map"},
-		QuickBudget: 150 * time.Second,
+		QuickBudget: 300 * time.Second,
 	})
 }
